@@ -1181,11 +1181,22 @@ Proof.
   - destruct b; [assumption | reflexivity].
 Qed.
 
+Lemma C12_ok_filter : forall f l, C12_ok l = true -> C12_ok (filter f l) = true.
+Proof.
+  induction l as [|b r IH]; intros H; [reflexivity|].
+  simpl in H. rewrite !andb_true_iff in H. destruct H as [[H1 H2] H3].
+  simpl. destruct (f b); [|apply IH; assumption].
+  simpl. rewrite H1, (IH H3), andb_true_r. simpl.
+  apply forallb_forall. intros x Hx. apply filter_In in Hx. destruct Hx as [Hx _].
+  rewrite forallb_forall in H2. apply H2. assumption.
+Qed.
+
 Lemma model_meets_long_oracle : forall t0 ops s bs, mono t0 ops -> history t0 ops = Some (s, bs) ->
   C12_long_ok bs = true.
 Proof.
   intros t0 ops s bs Hm Hh. unfold C12_long_ok.
-  apply (long_of_ok bs None I). apply (model_meets_oracle _ _ _ _ Hm Hh).
+  pose proof (model_meets_oracle _ _ _ _ Hm Hh) as Hok.
+  rewrite (long_of_ok bs None I Hok). simpl. unfold long_sample. apply C12_ok_filter. assumption.
 Qed.
 
 (* what the one-pass oracle decides about ALL Current results of a history *)
@@ -1214,8 +1225,46 @@ Qed.
 
 Lemma long_unique : forall l, C12_long_ok l = true -> StronglySorted same_or_later (curs l).
 Proof.
-  intros l H. apply Sorted_StronglySorted; [apply same_or_later_trans|].
+  intros l H. unfold C12_long_ok in H. apply andb_true_iff in H. destruct H as [H _].
+  apply Sorted_StronglySorted; [apply same_or_later_trans|].
   apply (long_chain l None H).
+Qed.
+
+Lemma C12_ok_pairs : forall l a b, C12_ok l = true -> In a l -> In b l ->
+  a = b \/ pair_ok a b = true \/ pair_ok b a = true.
+Proof.
+  induction l as [|x r IH]; intros a b H Ha Hb; [contradiction|].
+  simpl in H. rewrite !andb_true_iff in H. destruct H as [[H1 H2] H3]. rewrite forallb_forall in H2.
+  destruct Ha as [Ha | Ha]; destruct Hb as [Hb | Hb]; subst.
+  - left. reflexivity.
+  - right. left. apply H2. assumption.
+  - right. right. apply H2. assumption.
+  - apply IH; assumption.
+Qed.
+
+Lemma compat_same_id : forall a b, keys_compat a b = true \/ keys_compat b a = true ->
+  k_id a = k_id b -> a = b.
+Proof.
+  intros a b [H | H] He; unfold keys_compat in H; rewrite !andb_true_iff in H; destruct H as [[H _] _].
+  - apply Z.eqb_eq in He. rewrite He in H. apply key_eqb_eq. assumption.
+  - symmetry in He. apply Z.eqb_eq in He. rewrite He in H. symmetry. apply key_eqb_eq. assumption.
+Qed.
+
+(* ... and about the Get results: a key returned by any Get of the history is the very
+   key that any Current of the history returned under the same id *)
+Lemma long_get_unique : forall l g t id k' g' t' c, C12_long_ok l = true ->
+  In (BGet g t id (Some k')) l -> In (BCur g' t' c) l -> k_id c = k_id k' -> c = k'.
+Proof.
+  intros l g t id k' g' t' c H Hg Hc He. unfold C12_long_ok in H. apply andb_true_iff in H. destruct H as [_ H].
+  assert (Hids : In (k_id k') (get_ids l)).
+  { unfold get_ids. apply in_flat_map. exists (BGet g t id (Some k')). split; [assumption | right; left; reflexivity]. }
+  assert (H1 : In (BGet g t id (Some k')) (long_sample l)) by (unfold long_sample; apply filter_In; split; [assumption | reflexivity]).
+  assert (H2 : In (BCur g' t' c) (long_sample l)).
+  { unfold long_sample. apply filter_In. split; [assumption|]. apply existsb_exists. exists (k_id k').
+    split; [assumption | apply Z.eqb_eq; assumption]. }
+  destruct (C12_ok_pairs _ _ _ H H2 H1) as [Heq | [Hp | Hp]]; [discriminate | |];
+    unfold pair_ok in Hp; rewrite !andb_true_iff in Hp; destruct Hp as [[Hp _] _]; simpl in Hp;
+    apply compat_same_id; auto.
 Qed.
 
 (* ---------- the listeners: histories of key exchanges and NTS requests ---------- *)
